@@ -19,6 +19,10 @@ PAIRS = {
     'chain4_to_6': ([('B1', 'REF', 1), ('B2', 'REF', 1), ('B3', 'REF', 1), ('B4', 'REF', 1)],
                     [(0, 1), (1, 2), (2, 3)],
                     [(f'C{i + 1}', 'TGT', 1) for i in range(6)], [(i, i + 1) for i in range(5)]),
+    # the first two target atoms lie EXACTLY on the two anchors of the reference (a bead placed on an atom)
+    'onanchor4_to_3': ([('B1', 'REF', 1), ('B2', 'REF', 1), ('B3', 'REF', 1), ('B4', 'REF', 1)],
+                       [(0, 1), (1, 2), (2, 3)],
+                       [('C1', 'TGT', 1), ('C2', 'TGT', 1), ('C3', 'TGT', 1)], [(0, 1), (1, 2)]),
     'branch5_to_3': ([('B1', 'REF', 1), ('B2', 'REF', 1), ('B3', 'REF', 1), ('B4', 'REF', 1), ('B5', 'REF', 1)],
                      [(0, 1), (1, 2), (1, 3), (3, 4)],
                      [('C1', 'TGT', 1), ('C2', 'TGT', 1), ('C3', 'TGT', 1)], [(0, 1), (1, 2)]),
@@ -51,13 +55,16 @@ EVENTS = [['call', 0], ['call', 1], ['call', 2], ['call', 'ref'], ['call_wrong_s
           ['respecies_arg', 1], ['call_list', 'empty'], ['call_list', 'two'], ['mut_tgt_resids'],
           ['renumber_arg_big', 1]]
 # events explored on the plain chain pair only (keeps the other pairs' history spaces as they were)
-EXTRA = [['degen_arg', 1, 'near'], ['degen_arg', 1, 'exact'], ['call_case_name'], ['call_same_name_other_atoms']]
+EXTRA = [['degen_arg', 1, 'near'], ['degen_arg', 1, 'exact'], ['call_case_name'], ['call_same_name_other_atoms'],
+         ['mut_equivalences']]
 SCALE = 0.5
 
 
 def alphabet(pair):
     if pair == 'branch5_to_3':      # its atom 1 has three bonds
         return EVENTS + [['collinear_call', 2]]
+    if pair == 'onanchor4_to_3':    # plus the caller's own in-place edits of atom coordinates (`atom.position += d`)
+        return EVENTS + [['inplace_arg', 1], ['inplace_ref'], ['inplace_last_result']]
     return EVENTS + EXTRA if pair == 'chain4_to_6' else EVENTS
 
 
@@ -106,6 +113,8 @@ class World:
                 self.args.append(s1[0])
                 self._keep = getattr(self, '_keep', []) + [s1]
         tpos = _dec(generic_points(nt, seed, scale=0.7, tag=60 + nt))
+        if pair == 'onanchor4_to_3':
+            tpos[0], tpos[1] = base[1].copy(), base[2].copy()
         trecs = [(ri, rn, an, i + 1, tpos[i]) for i, (an, rn, ri) in enumerate(tatoms)]
         self.tsys = System(MemFile(gro_text(trecs), 'tgt.gro'), MemFile(itp_text('TGTMOL', tatoms, tedges), 'TGTMOL.itp'))
         self.tgt = self.tsys[0]
@@ -218,7 +227,7 @@ class C04(Check):
             'non-trivial = a call event whose result was compared with a freshly built map')
     technique = ('explicit-state breadth-first search over call/mutation histories on the real ExchangeMap with a '
                  'differential oracle (fresh map built from fresh files) after every transition; de Bruijn histories')
-    level_text = ('every history up to depth 3 (quick; 2 on the four special-purpose pairs) / 4-5 (thorough; 3 on those) over an 18-event alphabet (22 on the plain chain pair: plus an argument deformed to a near-degenerate / exactly degenerate anchor frame, a call with a species whose name differs only in letter case and one with the same name and size but other atom names; 19 on the branched pair: plus an argument whose three-bond anchor is in line with its neighbours), on 6 reference/target '
+    level_text = ('every history up to depth 3 (quick; 2 on the five special-purpose pairs) / 4-5 (thorough; 3 on those) over an 18-event alphabet (23 on the plain chain pair: plus an argument deformed to a near-degenerate / exactly degenerate anchor frame, a call with a species whose name differs only in letter case, one with the same name and size but other atom names, and the caller emptying the dictionary the `equivalences` property returned; 19 on the branched pair: plus an argument whose three-bond anchor is in line with its neighbours; 21 on the pair whose target atoms lie exactly on the reference anchors: plus in-place `atom.position += d` on an argument, on the construction reference and on the last result), on 7 reference/target '
                   'pairs x 2 ways of producing arguments (sharing the species topology as System does / independently '
                   'loaded), is executed on the real map and checked after every event; histories of length 101 and 1002 '
                   'containing every ordered pair / triple of events cover the long-history clause')
@@ -395,6 +404,26 @@ class C04(Check):
                     pass
                 except Exception as exc:
                     V.append((f'{name}/rejected-with-other-than-TypeError', repr(exc)))
+            elif name in ('inplace_arg', 'inplace_ref', 'inplace_last_result'):
+                # the caller edits coordinates in place, atom by atom (`atom.position += d`): only that molecule moves
+                if name == 'inplace_arg':
+                    mol, key = w.args[ev[1]], f'arg{ev[1]}'
+                elif name == 'inplace_ref':
+                    mol, key = w.ref, 'ref'
+                else:
+                    mol, key = (w.results[-1], f'result{len(w.results) - 1}') if w.results else (None, None)
+                if mol is not None:
+                    for atom in mol:
+                        atom.position += d
+                    mutated = key
+            elif name == 'mut_equivalences':
+                # the caller post-processes the dictionary the public `equivalences` property handed out (empties its
+                # lists, drops its entries): what is mapped afterwards is what a fresh map gives
+                eq = w.map.equivalences
+                for key in list(eq):
+                    if isinstance(eq[key], list):
+                        del eq[key][:]
+                    del eq[key]
             elif name == 'mut_ref_coords':
                 w.ref.move(d)
                 mutated = 'ref'
